@@ -26,18 +26,7 @@ impl Lin {
 /// coefficient i sits at position i
 pub open spec fn coeffs_ok(c: Seq<Coeff>, n: int) -> bool { c.len() == n && forall|i: int| 0 <= i < n ==> (#[trigger] c[i]).pos() == i }
 
-impl MulSpecImpl<Felt> for Coeff {
-    open spec fn obeys_mul_spec() -> bool { false }
-    open spec fn mul_req(self, rhs: Felt) -> bool { true }
-    open spec fn mul_spec(self, rhs: Felt) -> Lin { arbitrary() }
-}
-impl core::ops::Mul<Felt> for Coeff {
-    type Output = Lin;
-    #[verifier::external_body]
-    fn mul(self, rhs: Felt) -> (r: Lin)
-        ensures r.lo() == self.pos(), r.hi() == self.pos() + 1, r.count() == 1, r.czero()
-    { unimplemented!() }
-}
+// (no `Coeff * Felt`: a coefficient can only weight a numbered constraint value (CVal) or a DEEP term (Term), see below)
 impl AddSpecImpl<Lin> for Lin {
     open spec fn obeys_add_spec() -> bool { false }
     /// terms are accumulated in strictly increasing coefficient position   [C16: no coefficient reused]
@@ -101,6 +90,29 @@ impl core::ops::Mul<Term> for Coeff {
     type Output = Lin;
     #[verifier::external_body]
     fn mul(self, rhs: Term) -> (r: Lin)
+        ensures r.lo() == self.pos(), r.hi() == self.pos() + 1, r.count() == 1, r.czero()
+    { unimplemented!() }
+}
+// ---- composition evaluator: which constraint value a coefficient weights ----------------------------------------------------
+// Rule C16_number_values wraps the K-th statement `let value = E;` of the evaluator as `cv(E, K)`: a CVal remembers its ordinal,
+// and `Coeff * CVal` requires coefficient position == ordinal: constraint value K is weighted by coefficient K, so no constraint
+// value is dropped, used twice, or weighted by another constraint's coefficient.
+#[verifier::external_body]
+#[derive(Clone, Copy)]
+pub struct CVal { _x: [u64; 4] }
+impl CVal { pub uninterp spec fn id(&self) -> int; }
+#[verifier::external_body]
+pub fn cv(x: Felt, k: usize) -> (r: CVal) ensures r.id() == k as int { unimplemented!() }
+impl MulSpecImpl<CVal> for Coeff {
+    open spec fn obeys_mul_spec() -> bool { false }
+    /// coefficient i weights the i-th constraint value   [C16]
+    open spec fn mul_req(self, rhs: CVal) -> bool { self.pos() == rhs.id() }
+    open spec fn mul_spec(self, rhs: CVal) -> Lin { arbitrary() }
+}
+impl core::ops::Mul<CVal> for Coeff {
+    type Output = Lin;
+    #[verifier::external_body]
+    fn mul(self, rhs: CVal) -> (r: Lin)
         ensures r.lo() == self.pos(), r.hi() == self.pos() + 1, r.count() == 1, r.czero()
     { unimplemented!() }
 }
